@@ -12,6 +12,7 @@ from ..tables import guard_context
 from .compiler_common import PX
 
 LEVEL = 'other'
+TECHNIQUE = 'static analysis: scope-walk shape (loop form or from_fn/find_map iterator form) by dominance, reachability and provenance on the function with its private helpers inlined; append-only list audit; scope provenance of component records'
 CLAUSE = ('ConstructibleDb::get / get_or_try_bind test the current scope before extending the search, and extend it with direct_parent_ids '
           'only; process_blueprint creates a new scope for every nested blueprint and processes it in that scope; '
           'ConstructiblesInScope::insert overwrites (latest registration wins); get_clone_component_id is the only builder of a `clone` '
